@@ -2,7 +2,7 @@
 from ..core import hx
 from . import _plan
 ID = "C14"
-PROPS = ["F1Verif.Props.C14", "F1Verif.Props.C15", "F1Verif.Props.C14Cli", "F1Verif.Props.FactsC14", "F1Verif.Props.RefineC15", "F1Verif.Props.RefineC08C", "F1Verif.Props.RefineC15F", "F1Verif.Props.RefineC14B"]
+PROPS = ["F1Verif.Props.C14", "F1Verif.Props.C15", "F1Verif.Props.C14Cli", "F1Verif.Props.FactsC14", "F1Verif.Props.RefineC15", "F1Verif.Props.RefineC08C", "F1Verif.Props.RefineC15F", "F1Verif.Props.RefineC14B", "F1Verif.Props.RefineC14G"]
 ALSO = ["F1Verif.Legacy.Parse"]
 RULE = ("engine A: grammar-directed rate strings (valid, near-miss: missing parts, stray signs, dots, spaces, empty unit, "
         "zero/negative intervals, overflowing numbers, non-ASCII units) and random strings through rate.ParseRate; the same "
@@ -147,6 +147,6 @@ def distribution(recs):
 
 
 MANIFEST = {
- "text": "Rate strings: ParseRate never crashes (C14_rate_total), an accepted rate has a non-negative count and a positive interval (C14_rate_runnable), and means what it spells — N/<duration>, N/<unit> = one of it, bare N = per second (C14_meaning_duration/_unit/_bare); ParseStages never crashes (C14_stages_total); every calculator that accepts its input returns a positive tick interval (newDistribution_pos, calc*_pos); an accepted config file has >= 1 worker and every kept stage is runnable (C14_plan_runnable via stageLoop_spec, parseStage_runnable). Pre-repair models with kernel-checked crashing inputs in Legacy/Parse. Flag level: Cli.plan models run.Cmd/runCmdExecute and the five builders with their registered defaults — C14_cli_total (never crashes), C14_cli_runnable (accepted => >= 1 worker, positive tick interval unless users mode, known scenario), C14_cli_options (options are the flags one to one), C14_cli_conc_refused. Tie: grammar-directed and random strings, calculator inputs, structured configs and generated command lines (F1.ExecuteWithArgs) through the real functions; returned rate functions probed.",
+ "text": "Rate strings: ParseRate never crashes (C14_rate_total), an accepted rate has a non-negative count and a positive interval (C14_rate_runnable), and means what it spells — N/<duration>, N/<unit> = one of it, bare N = per second (C14_meaning_duration/_unit/_bare); ParseStages never crashes (C14_stages_total); every calculator that accepts its input returns a positive tick interval (newDistribution_pos, calc*_pos); an accepted config file has >= 1 worker and every kept stage is runnable (C14_plan_runnable via stageLoop_spec, parseStage_runnable). Pre-repair models with kernel-checked crashing inputs in Legacy/Parse. Flag level: Cli.plan models run.Cmd/runCmdExecute and the five builders with their registered defaults — C14_cli_total (never crashes), C14_cli_runnable (accepted => >= 1 worker, positive tick interval unless users mode, known scenario), C14_cli_options (options are the flags one to one), C14_cli_conc_refused. Tie: grammar-directed and random strings, calculator inputs, structured configs and generated command lines (F1.ExecuteWithArgs) through the real functions; returned rate functions probed. The builders themselves are regenerated (RefineC14B/C14G/C15F): api.NewDistribution computes Plan.newDistribution, CalculateConstantRate / StagedRate / RampRate / GaussianRate refuse in the order of Plan.calc*, hand the parsed unit / the frequency to NewDistribution and return exactly its interval and rate function; the file trigger's New closure copies every limit into the options.",
  "note": "YAML decoding, pflag/cobra, strconv.ParseFloat are external (not modelled); strconv.Atoi and time.ParseDuration are ported and checked against the real functions by correspondence (their behaviour is an assumption of the theorems). Arbitrary-bytes inputs only monitor 'no crash' (fuzzing in support).",
  "technique": "Lean 4 theorems (total functions with explicit error outcomes, case analysis) + differential check on grammar-directed inputs"}
